@@ -65,3 +65,31 @@ Theorem C10_type_contexts_sound_partial :
 Proof. exact @C10_type_sound_partial. Qed.
 
 Print Assumptions C10_type_contexts_sound_partial.
+
+(* ------------------------------------------------------------------------------------------------------------
+   Extension (third round): the classification functions REGENERATED from group_helpers.py / key_helpers.py
+   (Gen/KeysGen.v, tools/translate_keys.py) satisfy the same theorems; they equal the hand-written model on every value the
+   stack emulation can produce (Lemmas/KeysGenLemmas.v).  An edit of `_get_index` / `is_value_matches_key` therefore changes
+   the subject of these theorems on the next run. *)
+From Coq Require Import String NArith ZArith List.
+From Tealer Require Import Syntax StackAst Keys KeysGen Eval SingleLemmas KeysGenLemmas.
+
+Theorem C10_index_classification_regenerated : forall e v j,
+  sv_eval e v = Some (VInt j) -> index_denotes e (get_index_gen (e_intcs e) v) j.
+Proof. exact get_index_gen_correct. Qed.
+
+Theorem C10_reads_attributed_regenerated : forall e fam fld v x t,
+  value_matches_gen (e_intcs e) fam fld v = true -> sv_eval e v = Some x -> key_txn e fam = Some t ->
+  x = field_of e t fld.
+Proof. exact classify_gen_correct. Qed.
+
+(* generated = hand-written model on every operand tree of well-formed arity (in particular on every tree the emulation builds) *)
+Theorem C10_regenerated_equals_model : forall intcs v, arity_ok v ->
+  get_index_gen intcs v = get_index intcs v /\
+  get_index_and_field_gen intcs v = get_index_and_field intcs v /\
+  forall fam fld, value_matches_gen intcs fam fld v = value_matches intcs fam fld v.
+Proof. exact gen_eq_on_arity_ok. Qed.
+
+Print Assumptions C10_index_classification_regenerated.
+Print Assumptions C10_reads_attributed_regenerated.
+Print Assumptions C10_regenerated_equals_model.
